@@ -26,7 +26,9 @@ Definition H_CLOSE : nat := 1.          (* ScreenScheduler._close_screen_callbac
 Definition H_RECEIVED : nat := 2.       (* InputThreadManager._input_received_handler *)
 Definition H_READY (n : nat) : nat := 10 + n.   (* InputHandler n ._input_received_handler *)
 (* application-defined signals (SignalHandler.connect / create_signal / emit of a UIScreen): class c, callback k *)
-Definition CLS_CUSTOM (c : nat) : nat := 5 + c.
+(* class number 99 stands for ExceptionSignal itself: an application may connect its own callback to ExceptionSignal
+   (which replaces the loop's kill-the-application handling of failures) *)
+Definition CLS_CUSTOM (c : nat) : nat := if (c =? 99)%nat then CLS_EXCEPTION else 5 + c.
 Definition H_CUSTOM (k : nat) : nat := 3 + k.     (* k < 7: handler ids 3..9 *)
 
 (* ---- what the application's screens do ---- *)
